@@ -140,10 +140,12 @@ class Ctx:
 def load_known_findings(prop):
     """Lines `finding: property=<id> key=<key> <description>` from known-findings.txt."""
     out = {}
-    p = os.path.join(VERIF, "known-findings.txt")
-    if not os.path.exists(p):
-        return out
-    for line in open(p):
+    paths = [os.path.join(VERIF, "known-findings.txt"), os.path.join(VERIF, "findings.d", prop + ".txt")]
+    lines = []
+    for p in paths:
+        if os.path.exists(p):
+            lines += open(p).read().splitlines()
+    for line in lines:
         line = line.strip()
         m = re.match(r"finding:\s+property=(\S+)\s+key=(\S+)\s*(.*)", line)
         if m and m.group(1) == prop:
@@ -167,6 +169,21 @@ def sync_harness_gosum():
         pass
 
 
+def harness_dir(ctx):
+    """The harness module to build. Normally /verif/harness (replace => /repo). When
+    VERIF_REPO points at another tree (testing a seeded change in a scratch worktree), a
+    copy of the harness with the replace directive rewritten is made in the scratch dir."""
+    if os.path.realpath(REPO) == "/repo":
+        return HARNESS
+    d = os.path.join(ctx.scratch, "harness_copy")
+    if not os.path.exists(d):
+        shutil.copytree(HARNESS, d)
+        gm = open(os.path.join(d, "go.mod")).read()
+        gm = gm.replace("=> /repo", "=> " + os.path.realpath(REPO))
+        open(os.path.join(d, "go.mod"), "w").write(gm)
+    return d
+
+
 def build_harness(ctx, pkg, name=None, tags="verif", race=False):
     """go build ./cmd/<pkg> of the harness (replace => /repo) into the scratch dir."""
     sync_harness_gosum()
@@ -176,7 +193,7 @@ def build_harness(ctx, pkg, name=None, tags="verif", race=False):
         cmd.insert(2, "-race")
     cmd.append("./cmd/" + pkg)
     env = go_env({"CGO_ENABLED": "1"} if race else None)
-    rc, so, se = run(cmd, cwd=HARNESS, env=env, timeout=1200)
+    rc, so, se = run(cmd, cwd=harness_dir(ctx), env=env, timeout=1200)
     if rc != 0:
         raise BuildError("go build of harness %s failed:\n%s" % (pkg, (so + se)[-6000:]))
     return out
@@ -221,7 +238,7 @@ def write_if_changed(path, content):
 
 def lean_build(ctx, modules):
     """Build the given proof modules and the model driver. Returns (ok, log)."""
-    rc, so, se = lake(["build"] + list(modules) + ["verifdriver"])
+    rc, so, se = lake(["build"] + list(modules) + [ctx.prop.lower() + "driver"])
     log = so + se
     ctx.lean_ok = (rc == 0)
     return rc == 0, log
@@ -305,21 +322,26 @@ def strip_lean_comments(s):
     return "".join(out)
 
 
-def driver_path():
-    return os.path.join(LEAN_DIR, ".lake", "build", "bin", "verifdriver")
+def driver_path(model):
+    return os.path.join(LEAN_DIR, ".lake", "build", "bin", model.lower() + "driver")
 
 
 def run_model(ctx, model, lines, timeout=1800):
-    """Pipe input lines to `verifdriver <model>`; returns list of output lines (same length)."""
+    """Pipe input lines to the model driver `<model>driver` (optionally "Cxx:mode" passes
+    `mode` as argv[1]); returns list of output lines (same length as the input)."""
     inp = "".join(l + "\n" for l in lines)
-    rc, so, se = run([driver_path(), model], input=inp, timeout=timeout)
+    mode = []
+    if ":" in model:
+        model, m = model.split(":", 1)
+        mode = [m]
+    rc, so, se = run([driver_path(model)] + mode, input=inp, timeout=timeout)
     if rc != 0:
-        raise HarnessError("verifdriver %s exited %d: %s" % (model, rc, se[-2000:]))
+        raise HarnessError("%sdriver exited %d: %s" % (model, rc, se[-2000:]))
     out = so.split("\n")
     if out and out[-1] == "":
         out.pop()
     if len(out) != len(lines):
-        raise HarnessError("verifdriver %s: %d outputs for %d inputs" % (model, len(out), len(lines)))
+        raise HarnessError("%sdriver: %d outputs for %d inputs" % (model, len(out), len(lines)))
     return out
 
 
